@@ -88,5 +88,54 @@ theorem nv_prev_sibling (has : Bool) (idx : Nat) :
         hop has parent_ (TO (GREEN parent_) (.nat idx) (START self_)) := by
   cases has <;> exact ⟨by kernel_rfl, by kernel_rfl⟩
 
+/-! #### tokens: a token is a struct with its parent and its index; its hops are its parent's indexed hops -/
+
+def tokV (idx : Nat) : Val := .strct [(N.field.parent, .atom 7), (N.field.index, .nat idx)]
+
+/-- `parent()`, `text_range()` of the token; the parent's indexed hops and green children answer with free terms; `nth` on the
+    parent's children finds `found`, which is a token iff `isTok` -/
+def tkSem (found : Bool) (isTok : Bool) : Sem :=
+  { Sem.none with
+    call := fun f args => if f == N.S.from_raw then (match args with | [k] => .ok (.ctor 940 [k]) .unit | _ => .unknown) else .unknown
+    meth := fun m recv args =>
+      match recv, args with
+      | .strct [(601, .atom 7), (602, .nat i)], [] =>
+        if m == N.parent then .ok (.atom 7) recv
+        else if m == N.text_range then .ok (.ctor 925 [tokV i]) recv
+        else if m == N.green then .ok (.ctor 941 [.nat i]) recv
+        else if m == N.syntax_kind then .ok (.ctor 942 [.nat i]) recv
+        else .unknown
+      | .ctor 925 [n], [] =>
+        if m == N.start then .ok (START n) recv else if m == N.end_ then .ok (END_ n) recv else .unknown
+      | .atom 7, [n, o] =>
+        if m == N.next_child_or_token_after then .ok (.ctor 943 [n, o]) recv
+        else if m == N.prev_child_or_token_before then .ok (.ctor 944 [n, o]) recv
+        else .unknown
+      | .atom 7, [] => if m == N.green then .ok (GREEN (.atom 7)) recv else .unknown
+      | .ctor 920 [n], [] => if m == N.children then .ok (.ctor 923 [n]) recv else .unknown
+      | .ctor 923 [n], [i] => if m == N.nth then .ok (if found then vSome (.ctor 945 [n, i]) else vNone) recv else .unknown
+      | .ctor 945 [n, i], [] => if m == N.as_token then .ok (if isTok then vSome (.ctor 946 [n, i]) else vNone) recv else .unknown
+      | .ctor 941 [i], [] => if m == N.kind then .ok (.ctor 947 [i]) recv else .unknown
+      | _, _ => .unknown }
+
+/-- a token's sibling hops are its parent's indexed hops, from the token's own index, at the token's own end / start -/
+theorem tk_siblings (f t : Bool) (idx : Nat) :
+    call (tkSem f t) 30 Rs.Gen.tk_next_sibling [tokV idx] (xs := []) = .val (.ctor 943 [.nat idx, END_ (tokV idx)]) []
+    ∧ call (tkSem f t) 30 Rs.Gen.tk_prev_sibling [tokV idx] (xs := []) = .val (.ctor 944 [.nat idx, START (tokV idx)]) [] :=
+  ⟨by kernel_rfl, by kernel_rfl⟩
+
+/-- `green()`: the parent's green child at the token's index, which must exist and be a token (else the `unwrap`s panic) -/
+theorem tk_green (idx : Nat) :
+    call (tkSem true true) 30 Rs.Gen.tk_green [tokV idx] (xs := []) = .val (.ctor 946 [.atom 7, .nat idx]) []
+    ∧ call (tkSem false true) 30 Rs.Gen.tk_green [tokV idx] (xs := []) = .panic
+    ∧ call (tkSem true false) 30 Rs.Gen.tk_green [tokV idx] (xs := []) = .panic :=
+  ⟨by kernel_rfl, by kernel_rfl, by kernel_rfl⟩
+
+/-- `syntax_kind()` is the green token's kind; `kind()` is `S::from_raw` of it -/
+theorem tk_kinds (f t : Bool) (idx : Nat) :
+    call (tkSem f t) 30 Rs.Gen.tk_syntax_kind [tokV idx] (xs := []) = .val (.ctor 947 [.nat idx]) []
+    ∧ call (tkSem f t) 30 Rs.Gen.tk_kind [tokV idx] (xs := []) = .val (.ctor 940 [.ctor 942 [.nat idx]]) [] :=
+  ⟨by kernel_rfl, by kernel_rfl⟩
+
 end Gen
 end Cst
